@@ -586,3 +586,64 @@ def cfg_of(fn: ast.FunctionDef | ast.AsyncFunctionDef) -> CFG:
     c = CFG(fn)
     fn._mlm_cfg = c  # type: ignore[attr-defined]
   return c
+
+
+def must_facts(g: 'CFG', gen_edge, kill) -> dict:
+  """Forward must-analysis over normal edges.
+
+  facts[n] is the set of facts that hold on EVERY normal path from the entry to
+  the start of n.  `gen_edge(node, label)` returns the facts established by
+  leaving `node` along the edge labelled `label` (e.g. the conjuncts of a test
+  on its true edge); `kill(node, fact)` says whether executing `node`
+  invalidates `fact` (e.g. the loop target being re-bound).
+  """
+  TOP = None
+  facts: dict = {n: TOP for n in g.nodes}
+  facts[g.entry] = frozenset()
+  work = [g.entry]
+  while work:
+    n = work.pop()
+    cur = facts[n]
+    if cur is TOP:
+      continue
+    kept = frozenset(f for f in cur if not kill(n, f))
+    for s, lab in n.succ:
+      if lab in ('exc', 'close'):
+        continue
+      out = kept | frozenset(gen_edge(n, lab))
+      old = facts[s]
+      new = out if old is TOP else (old & out)
+      if old is TOP or new != old:
+        facts[s] = new
+        work.append(s)
+  return {n: (f if f is not None else frozenset()) for n, f in facts.items()}
+
+
+def truthy_conjuncts(test: ast.AST, label: str) -> list[ast.AST]:
+  """Sub-expressions known to be truthy when `test` leaves along `label`."""
+  neg = False
+  t = test
+  while isinstance(t, ast.UnaryOp) and isinstance(t.op, ast.Not):
+    neg = not neg
+    t = t.operand
+  want_true = (label == 'true') != neg
+  if label not in ('true', 'false'):
+    return []
+  if want_true:
+    if isinstance(t, ast.BoolOp) and isinstance(t.op, ast.And):
+      out = []
+      for v in t.values:
+        out += truthy_conjuncts(v, 'true')
+      return out
+    if isinstance(t, ast.NamedExpr):
+      return [t, t.value]
+    return [t]
+  # the test is false
+  if isinstance(t, ast.BoolOp) and isinstance(t.op, ast.Or):
+    out = []
+    for v in t.values:
+      out += truthy_conjuncts(v, 'false')
+    return out
+  if isinstance(t, ast.UnaryOp) and isinstance(t.op, ast.Not):
+    return truthy_conjuncts(t.operand, 'true')
+  return []
